@@ -3,6 +3,7 @@ from contracts import c15_dictlist, c04_status, c05_fva as C  # noqa
 from contracts import c09_pfba as CP
 from contracts import c05_fva_driver as CD
 from contracts import c14_fva_pool as CPOOL
+from contracts import c17_fva_iter as FI
 from pyvc.contract import chain_hooks
 from props._generic import run_property, replay_with_driver
 
@@ -11,9 +12,10 @@ KEYS = ["_fva_step", "check_solver_status", "Model.slim_optimize", "add_pfba"]
 
 
 def run(rep):
-    run_property(rep, KEYS, hooks=chain_hooks(C.HOOKS, CP.HOOKS), lemmas=CP.lemmas,
+    run_property(rep, KEYS, hooks=chain_hooks(C.HOOKS, CP.HOOKS), lemmas=lambda: CP.lemmas() + FI.lemmas(),
                  more=[(["_init_worker", "flux_variability_analysis"], CD.HOOKS),
-                       (["flux_variability_analysis@pool"], CPOOL.HOOKS)], explanation=(
+                       (["flux_variability_analysis@pool"], CPOOL.HOOKS),
+                       ([FI.KEY], FI.HOOKS), ([FI.STEP_KEY], FI.STEP_HOOKS)], explanation=(
         "Deductive (kernel): _fva_step is proved, for every model and reaction id, to solve the current LP with +1*forward -1*reverse of "
         "the requested reaction added to the objective, to return (requested id, solver objective value), and to leave EVERY "
         "objective coefficient as at entry on normal return (given both were 0 at entry, which the sweep's prelude establishes) - "
@@ -38,12 +40,24 @@ def run(rep):
         "tasks of a worker do not matter follows from _fva_step's proved frame): for every requested id the stored minimum / maximum "
         "is the value of the +forward -reverse solve of that reaction in direction min / max, nothing is stored under another key, "
         "one pool per sweep with exactly (min(processes, n), _init_worker, (model, loopless, sense)), chunksize = n // processes >= 1, "
-        "pool left again. The pool itself (C14), the loopless post-processing and GLPK's "
-        "optimality are NOT proved: bounded driver (ranges against exact rational min/max of the documented problem; loopless "
+        "pool left again. "
+        "The loopless post-processing is under contract as far as it can be: loopless_fva_iter (contracts/c17_fva_iter.py; zero_cutoff "
+        "None, `current` finite, bounds valid) - bookkeeping as a ghost trace and the frame on every exit, see C17 - and _fva_step with "
+        "the global _loopless = True (key _fva_step@loopless, the same real body): after the +1 forward / -1 reverse solve and the status "
+        "check loopless_fva_iter(_model, rxn) is called ONCE with exactly these arguments in that state (its precondition obliged), its "
+        "result is the value returned under the requested id, every objective coefficient is as at entry afterwards and bounds, direction "
+        "and context stack are as at entry on every exit. `Loopless ranges lie inside the plain ones` is proved as lemmas over that "
+        "contract: the last solve of loopless_fva_iter is a solve of the ENTRY problem whose bounds are the entry bounds or, for the "
+        "closed reactions, (max(0,lb), min(0,ub)) - which lie within (lb, ub) and force flux 0 -, hence, ASSUMING the solver contract "
+        "(the plain optimum `current` bounds the objective over the plain feasible set; a solve's answer is feasible for its own bounds), "
+        "a maximum returned is <= current and a minimum >= current; on the two early returns the value IS current. "
+        "The pool itself (C14), that the loopless value is the TRUE cycle-free extreme (known finding loopless-fva-too-narrow) and "
+        "GLPK's optimality are NOT proved: bounded driver (ranges against exact rational min/max of the documented problem; loopless "
         "against brute force)."),
         trusted=["optlang Objective.set_linear_coefficients (assumed contract)", "an optimal LP has a finite optimum (in the assumed optimize contract)",
                  "pandas / numpy / optlang constructors as uninterpreted operations; model.add_cons_vars and the objective setter as recorded calls", "GLPK optimize (assumed, monitored)",
                  "DictList.get_by_id contract (proved under C15)",
+                 "loopless_fva_iter / _fva_step@loopless: leaving `with model:` restores bounds, coefficients and direction (C03 / C13 A1); objective.value is a finite float after a solve whose status passes check_solver_status (GLPK: c.x of the stored primal values); reaction.flux / get_solution as in C04; the two restricted-optimum lemmas ASSUME the solver contract they name",
                  "multiprocessing.Pool as the assumed contract Pool.imap_unordered (every result once, arbitrary order, private copies)"])
 
 
